@@ -14,11 +14,11 @@ Layout == [magic3 |-> RealMagic3, magic2 |-> RealMagic2, salt |-> RealSalt, nonc
 
 Fmts == {"u3", "u2", "u0", "s3", "s2", "s0"}
 Keys == {K1, K2, K3}
-Others(k, tok) == (Keys \ {k}) \cup {k \o "x"} \cup (IF tok THEN {} ELSE {""})
+Others(k, tok) == (Keys \ {k}) \cup {k \o "x", k \o " "} \cup (IF tok THEN {} ELSE {""})
 
 Pairs == IF Tier = "thorough"
          THEN {P0, P1, P2, P3, P4} \X Keys
-         ELSE {<<P0, K1>>, <<P2, K2>>}
+         ELSE {<<P0, K1>>, <<P2, K3>>}
 TokPairs == IF Tier = "thorough"
             THEN {<<T1, K3>>, <<T2, K1>>, <<T3, K2>>}
             ELSE {<<T1, K3>>}
